@@ -117,6 +117,7 @@ structure Cfg where
   invalidBits : Nat      -- width of the invalid-context counter
   refreshAfterSample : Bool   -- the context cache is refreshed after `ts_now` is taken (repaired order)
   catchAllFormat : Bool
+  reportBeforeFlushCleanup : Bool   -- the Flush path reports the failure counters before removing contexts (repaired)
   deriving Repr
 
 structure BSt where
@@ -138,6 +139,8 @@ structure BSt where
   nextId : Nat := 0
   out : List Ev := []                 -- events of the current operation (newest first)
   backendGone : Bool := false
+  siteCnt : List (Nat × Nat) := []    -- hook-site visit counters of the current poll
+  inject : List (Nat × Nat × List (List String)) := []   -- (site, k, operations) to run at the k-th visit of a site
 
 /-! ### small helpers -/
 
